@@ -25,6 +25,13 @@ class HarnessError(Exception):
     """The machinery itself is broken (exit 2) - never reported as a VIOLATION."""
 
 
+class ImplRaised(Exception):
+    """raised in the parent of an isolated child in which the implementation raised unexpectedly; carries the V record"""
+    def __init__(self, v):
+        Exception.__init__(self, v["msg"])
+        self.v = v
+
+
 def bind_repo():
     sys.dont_write_bytecode = True
     if REPO not in sys.path[:1]:
@@ -100,8 +107,9 @@ def isolated(fn, *args):
             os.close(r)
             try:
                 payload = pickle.dumps(("ok", fn(*args)))
-            except BaseException:
-                payload = pickle.dumps(("err", traceback.format_exc()))
+            except BaseException as e:
+                v = impl_exception("?", e)
+                payload = pickle.dumps(("impl", v) if v is not None else ("err", traceback.format_exc()))
             with os.fdopen(w, "wb") as f:
                 f.write(payload)
         except BaseException:
@@ -117,6 +125,8 @@ def isolated(fn, *args):
     st, val = pickle.loads(data)
     if st == "err":
         raise HarnessError("isolated child failed:\n" + val)
+    if st == "impl":
+        raise ImplRaised(val)
     return val
 
 
@@ -124,13 +134,53 @@ def isolated(fn, *args):
 _EXEC = {}
 
 
+def impl_exception(prop, exc):
+    """An exception that escaped a check: if it was RAISED INSIDE THE PACKAGE UNDER TEST (innermost package frame is
+    deeper than any /verif frame that could have caught it) on a path the check expects to succeed, it is reported as a
+    violation (the check only ever calls the implementation with inputs it must accept, everything else goes through
+    attempt()); otherwise it is a defect of the harness."""
+    if isinstance(exc, ImplRaised):
+        v = dict(exc.v)
+        v["key"] = v["key"].replace("?:", prop + ":", 1)
+        return v
+    tb = exc.__traceback__
+    last_repo = last_verif = None
+    depth = 0
+    while tb is not None:
+        f = os.path.realpath(tb.tb_frame.f_code.co_filename)
+        if f.startswith(REPO + os.sep):
+            last_repo = (depth, os.path.basename(f), tb.tb_frame.f_code.co_name, tb.tb_lineno)
+        elif f.startswith(VERIF + os.sep):
+            last_verif = depth
+        depth += 1
+        tb = tb.tb_next
+    if isinstance(exc, HarnessError) or last_repo is None or (last_verif is not None and last_verif > last_repo[0]):
+        return None
+    return V("%s:unexpected-exception:%s:%s" % (prop, last_repo[2], type(exc).__name__),
+             "the implementation raised %s: %s in %s:%s (line %d) on a request that must succeed" % (
+                 type(exc).__name__, str(exc)[:160], last_repo[1], last_repo[2], last_repo[3]))
+
+
+def guarded(prop, fn, case):
+    try:
+        return fn(case)
+    except BaseException as e:
+        if isinstance(e, (KeyboardInterrupt, MemoryError)):
+            raise
+        v = impl_exception(prop, e)
+        if v is None:
+            raise
+        return R("violation", viols=[v])
+
+
 def _run_chunk(arg):
     name, chunk = arg
     fn = _EXEC[name]
+    prop = name.split("/")[0]
     agg = {"n": 0, "nt": 0, "o": {}, "v": [], "x": []}
     for idx, case in chunk:
         try:
-            r = fn(case)
+            r = guarded(prop, fn, case)
         except BaseException:
             return {"error": "case %r\n%s" % (case, traceback.format_exc())}
         agg["n"] += r["n"]
@@ -272,13 +322,24 @@ def load_known():
 
 def run_replay(module, case):
     """Execute one stored case (or a stored sequence of cases) through the check's replay executor in a forked child."""
+    prop = module.__name__.rsplit(".", 1)[-1].upper()
+
+    def one(c):
+        try:
+            return module.replay(c)
+        except BaseException as e:
+            v = impl_exception(prop, e)
+            if v is None:
+                raise
+            return [v]
+
     def go():
         if isinstance(case, dict) and "__seq__" in case:
             out = []
             for c in case["__seq__"]:
-                out = module.replay(c)
+                out = one(c)
             return out
-        return module.replay(case)
+        return one(case)
     return isolated(go)
 
 
